@@ -367,6 +367,19 @@ def r4_validators(ctx, E, ctor):
         srcs = {p[-1]: repr(at(p)) for p in E["u64_paths"] + [E["mtime_path"]]}
         srcs[E["file_f"]] = repr(agg_get(innerv, E["file_f"]))
         meta = all("('param', 2)" in srcs[f] for f in E["u64_fields"] + [E["mtime_f"]])
+        # ... and unchanged: each validator field is what one accessor of the supplied Metadata returned, not a value computed
+        # from it (rounding the modification time, masking the inode ... would make distinct file states share validators)
+        for pth in E["u64_paths"] + [E["mtime_path"]]:
+            tv = at(pth)
+            while isinstance(tv, tuple) and tv and tv[0] in ("payload", "field"):
+                tv = tv[1]
+            pure = isinstance(tv, tuple) and tv and tv[0] == "call" and "Metadata" in tv[1] and len(tv[2]) == 1 and \
+                tv[2][0] in (("&", ("deref", ("param", 2))), ("deref", ("param", 2)), ("param", 2))
+            if not pure:
+                ctx.violation("C18.R4", "C18.R4|ctor-transformed|%s" % pth[-1],
+                              "the validator field `%s` is not captured as the supplied metadata reports it but computed from it (%s): file states the "
+                              "metadata distinguishes can share an ETag / Last-Modified" % (pth[-1], short(at(pth), 100)))
+                meta = False
         if meta and srcs[E["file_f"]] == repr(("param", 1)):
             ctx.ok("C18.R4", "length, identity and mtime are captured once from the supplied metadata; the file is the supplied file")
         else:
